@@ -27,9 +27,9 @@ from workflows.runtime.types.results import (
 
 
 class Resp(Event):
-    """A response event with one requirement-bearing field."""
+    """A response event with one requirement-bearing field (which a client may leave out: None)."""
 
-    k: int = 0
+    k: Optional[int] = 0
 
 
 class SubResp(Resp):
